@@ -73,9 +73,9 @@ theorem initSnap_eq (cs : List Cls) (rt : CState) (hinv : Inv cs rt) (preset : B
   | false => simp [Store.get, Init.lookup]
   | true => simp [presetStore_get rt hinv.nodup n]
 
-theorem model_defErr (c : Case) : (model c).defErr = defErrOf (defineChain c.classes) := by
+theorem model_defErr (c : Case) : (model c).defErr = defErrOf (defineChain c.cls) := by
   unfold model defErrOf
-  cases defineChain c.classes <;> rfl
+  cases defineChain c.cls <;> rfl
 
 /-! ### hooks are inherited only through the K6 shape -/
 
@@ -191,7 +191,7 @@ theorem defineFrom_append (pre cs : List Cls) (b : CState) (i : Nat) :
 
 /-! ### small helpers for Properties/C06.lean -/
 
-theorem known_nil (c : Case) (rt : CState) (hd : defineChain c.classes = .ok rt) (hk : known c = []) :
+theorem known_nil (c : Case) (rt : CState) (hd : defineChain c.cls = .ok rt) (hk : known c = []) :
     rt.inheritsHooks = false := by
   unfold known at hk
   rw [hd] at hk
